@@ -20,30 +20,187 @@ KW_OF = {"chg": "CHG", "mass": "MASS", "rad": "RAD"}
 V2000_PROP_OF = {"chg": "M  CHG", "rad": "M  RAD", "mass": "M  ISO"}
 
 
+VERSIONS = ("V2000", "V3000")
+
+
+class DispatchModel:
+    """The function that tells V2000 from V3000 (anywhere in the closure of graph_from_molfile_text) and what it does for a
+    given version string: which tucan functions it calls and how it ends.  Tests on the version variable are evaluated,
+    other tests are followed both ways; if-chains, match statements and look-ups in a module-level version table
+    (TABLE[v], TABLE.get(v) followed by a None test) are understood."""
+
+    def __init__(self, ctx):
+        self.ctx = ctx
+        ent = entry(ctx, "read_text")
+        cands = [ent] + [ctx.cg.funcs[q] for q in ctx.cg.closure([ent.fq])]
+        self.disp = next((f for f in cands if self._mentions_versions(f)), None)
+        if self.disp is None:
+            raise AnalysisError("no function reachable from graph_from_molfile_text tells V2000 from V3000 (dispatcher vanished)")
+        d = self.disp
+        self.vnames = set()
+        for n in own_walk(d.node):
+            if isinstance(n, ast.Compare):
+                sides = [n.left] + list(n.comparators)
+                if any(isinstance(c, ast.Constant) and c.value in VERSIONS for x in sides for c in ast.walk(x)):
+                    self.vnames |= {x.id for x in sides if isinstance(x, ast.Name)}
+            if isinstance(n, ast.Match) and isinstance(n.subject, ast.Name):
+                self.vnames.add(n.subject.id)
+            if isinstance(n, ast.Subscript) and isinstance(n.slice, ast.Name) and isinstance(n.value, ast.Name) and self._table(d, n.value.id) is not None:
+                self.vnames.add(n.slice.id)
+            if isinstance(n, ast.Call) and isinstance(n.func, ast.Attribute) and n.func.attr == "get" and isinstance(n.func.value, ast.Name) \
+                    and self._table(d, n.func.value.id) is not None and n.args and isinstance(n.args[0], ast.Name):
+                self.vnames.add(n.args[0].id)
+
+    @staticmethod
+    def _table(f, name):
+        tbl = f.module.assigns.get(name)
+        return tbl if isinstance(tbl, ast.Dict) and any(isinstance(k, ast.Constant) and k.value in VERSIONS for k in tbl.keys) else None
+
+    def _mentions_versions(self, f) -> bool:
+        seen = set()
+        for n in own_walk(f.node):
+            if isinstance(n, ast.Constant) and n.value in VERSIONS:
+                seen.add(n.value)
+            if isinstance(n, ast.Name) and self._table(f, n.id) is not None:
+                seen |= {k.value for k in self._table(f, n.id).keys if isinstance(k, ast.Constant)}
+        return set(VERSIONS) <= seen
+
+    def _lookup(self, e, ver):
+        """('row', FuncInfo) / ('absent-get',) / ('absent-index',) when e is a look-up in the version table, else None"""
+        tname = kind = None
+        if isinstance(e, ast.Subscript) and isinstance(e.value, ast.Name):
+            tname, kind = e.value.id, "index"
+        elif isinstance(e, ast.Call) and isinstance(e.func, ast.Attribute) and e.func.attr == "get" and isinstance(e.func.value, ast.Name):
+            tname, kind = e.func.value.id, "get"
+        tbl = self._table(self.disp, tname) if tname else None
+        if tbl is None:
+            return None
+        for k, v in zip(tbl.keys, tbl.values):
+            if isinstance(k, ast.Constant) and k.value == ver and isinstance(v, (ast.Name, ast.Attribute)):
+                r = self.ctx.repo.resolve_dotted(self.disp.module, v)
+                if r and r[0] == "func":
+                    return ("row", r[1])
+        return ("absent-" + kind,)
+
+    def outcome(self, ver: str):
+        """(functions called, how the dispatcher ends: 'raise' / 'return' / 'mixed' / 'falls through')"""
+        ctx, disp = self.ctx, self.disp
+        env = {v: ver for v in self.vnames}
+        reached: list = []
+
+        def deref(e):
+            if isinstance(e, ast.Name) and e.id not in params_of(disp.node):
+                d = single_def(disp.node, e.id)
+                if d is not None:
+                    return d
+            return e
+
+        def calls_in(node) -> bool:
+            """collect calls; True if evaluating the node raises for this version (index into the table with an absent key)"""
+            for n in ast.walk(node):
+                lk = self._lookup(n, ver) if isinstance(n, (ast.Subscript, ast.Call)) else None
+                if lk == ("absent-index",):
+                    return True
+                if isinstance(n, ast.Call):
+                    lk = self._lookup(deref(n.func), ver)
+                    if lk is not None:
+                        if lk[0] == "row":
+                            reached.append(lk[1])
+                        continue
+                    cs = ctx.cg.resolve_call(disp, n, ctx.cg.local_types(disp), set(params_of(disp.node)))
+                    if cs.kind == "tucan":
+                        reached.append(cs.target)
+            return False
+
+        def test_value(t):
+            try:
+                return bool(ceval(t, env))
+            except Exception:
+                pass
+            # reader = TABLE.get(v);  if reader is None / if not reader / if reader
+            neg = False
+            while isinstance(t, ast.UnaryOp) and isinstance(t.op, ast.Not):
+                t, neg = t.operand, not neg
+            name = None
+            if isinstance(t, ast.Name):
+                name, present_truth = t.id, True
+            elif isinstance(t, ast.Compare) and isinstance(t.left, ast.Name) and len(t.ops) == 1 and isinstance(t.ops[0], (ast.Is, ast.IsNot)) \
+                    and isinstance(t.comparators[0], ast.Constant) and t.comparators[0].value is None:
+                name, present_truth = t.left.id, isinstance(t.ops[0], ast.IsNot)
+            if name is not None:
+                lk = self._lookup(deref(ast.Name(name, ast.Load())), ver)
+                if lk is not None and lk[0] in ("row", "absent-get"):
+                    v = present_truth if lk[0] == "row" else not present_truth
+                    return v != neg
+            return None
+
+        def join(a, b):
+            if a is None or b is None:
+                return None
+            return a if a == b else "mixed"
+
+        def walk(stmts):
+            for st in stmts:
+                if isinstance(st, ast.If):
+                    v = test_value(st.test)
+                    if v is None:
+                        if calls_in(st.test):
+                            return "raise"
+                        t = join(walk(st.body), walk(st.orelse))
+                        if t is not None:
+                            return t
+                    else:
+                        t = walk(st.body if v else st.orelse)
+                        if t is not None:
+                            return t
+                elif isinstance(st, ast.Match):
+                    for case in st.cases:
+                        pat = case.pattern
+                        pats = [pat] if isinstance(pat, ast.MatchValue) else pat.patterns if isinstance(pat, ast.MatchOr) else []
+                        vals = [p.value.value for p in pats if isinstance(p, ast.MatchValue) and isinstance(p.value, ast.Constant)]
+                        wild = isinstance(pat, ast.MatchAs) and pat.pattern is None
+                        if ver in vals or wild:
+                            t = walk(case.body)
+                            if t is not None:
+                                return t
+                            break
+                elif isinstance(st, (ast.For, ast.While, ast.With, ast.Try)):
+                    for fld in ("body", "orelse", "finalbody"):
+                        walk(getattr(st, fld, []) or [])
+                else:
+                    if calls_in(st):
+                        return "raise"
+                    if isinstance(st, ast.Raise):
+                        return "raise"
+                    if isinstance(st, ast.Return):
+                        return "return"
+            return None
+        end = walk(disp.node.body)
+        return reached, end or "falls through"
+
+
+def dispatch_model(ctx) -> DispatchModel:
+    if "dispatch_model" not in ctx.cache:
+        ctx.cache["dispatch_model"] = DispatchModel(ctx)
+    return ctx.cache["dispatch_model"]
+
+
 def reader_entries(ctx) -> dict[str, FuncInfo]:
-    """version string -> reader entry function, from the dispatcher's tests"""
+    """version string -> reader entry function: what the dispatcher calls for that version and for no other"""
     if "reader_entries" in ctx.cache:
         return ctx.cache["reader_entries"]
-    disp = entry(ctx, "read_text")
+    dm = dispatch_model(ctx)
     out: dict[str, FuncInfo] = {}
-
-    def scan(stmts):
-        for st in stmts:
-            if isinstance(st, ast.If):
-                t = st.test
-                ver = None
-                if isinstance(t, ast.Compare) and len(t.ops) == 1 and isinstance(t.ops[0], ast.Eq):
-                    for side in (t.left, t.comparators[0]):
-                        if isinstance(side, ast.Constant) and isinstance(side.value, str):
-                            ver = side.value
-                if ver is not None:
-                    for n in ast.walk(ast.Module(st.body, [])):
-                        if isinstance(n, ast.Call):
-                            cs = ctx.cg.resolve_call(disp, n, ctx.cg.local_types(disp), set(params_of(disp.node)))
-                            if cs.kind == "tucan":
-                                out[ver] = cs.target
-                scan(st.orelse)
-    scan(disp.node.body)
+    per = {ver: dm.outcome(ver)[0] for ver in VERSIONS}
+    for ver in VERSIONS:
+        other = {f.fq for v2 in VERSIONS if v2 != ver for f in per[v2]}
+        own = list({f.fq: f for f in per[ver] if f.fq not in other}.values())
+        if len(own) == 1:
+            out[ver] = own[0]
+        elif len(own) > 1:
+            named = [f for f in own if ver.lower() in f.name.lower()]
+            if len(named) == 1:
+                out[ver] = named[0]
     if "V3000" not in out or "V2000" not in out:
         raise AnalysisError(f"molfile dispatcher no longer selects a V2000 and a V3000 reader (found {sorted(out)})")
     ctx.cache["reader_entries"] = out
@@ -700,21 +857,22 @@ def r_sibkeys(ctx) -> RuleResult:
             res.inst(f.fq, f"{ver}: {short(x)} keyed by the D/T-normalised symbol", "ok" if ok else "fail")
             if not ok:
                 res.fail(Finding("R-SIBKEYS", f.module.rel, f.qualname, norm(x), f"{ver}: element table is consulted with a symbol that did not pass through detect_hydrogen_isotopes (D / T raise KeyError or are misread)", line=x.lineno))
-    # dispatch totality
-    disp = entry(ctx, "read_text")
-    cfg = cfg_of(disp.node)
-    # the final else must raise: find the If chain on the version
-    chain = [n for n in own_walk(disp.node) if isinstance(n, ast.If)]
-    last = None
-    for c in chain:
-        last = c
-        while last.orelse and len(last.orelse) == 1 and isinstance(last.orelse[0], ast.If):
-            last = last.orelse[0]
-        break
-    ok = last is not None and bool(last.orelse) and any(isinstance(s, ast.Raise) for s in last.orelse)
+    # dispatch totality: a version string that is neither V2000 nor V3000 ends in a raise without any reader being called
+    dm = dispatch_model(ctx)
+    disp = dm.disp
+    readers = {f.fq for f in reader_entries(ctx).values()}
+    bad_ver = None
+    for ver in ("V1000", "", "v3000", "V30000"):
+        called, end = dm.outcome(ver)
+        if end != "raise" or any(f.fq in readers for f in called):
+            bad_ver = (ver, end, [f.name for f in called if f.fq in readers])
+            break
+    ok = bad_ver is None
     res.inst(disp.fq, "unsupported version raises the reader's exception", "ok" if ok else "fail")
     if not ok:
-        res.fail(Finding("R-SIBKEYS", disp.module.rel, disp.qualname, "version dispatch", "a version other than V2000 / V3000 does not raise", line=disp.node.lineno))
+        res.fail(Finding("R-SIBKEYS", disp.module.rel, disp.qualname, "version dispatch",
+                         f"a version other than V2000 / V3000 does not raise (for {bad_ver[0]!r} the dispatcher {bad_ver[1]}s" + (f" after calling {bad_ver[2]}" if bad_ver[2] else "") + ")",
+                         line=disp.node.lineno))
     return res
 
 
@@ -1471,25 +1629,56 @@ def r_dispatch(ctx) -> RuleResult:
     res = RuleResult("R-DISPATCH", "the molfile version is taken from the counts line (4th line) only; header and comment lines are read by nothing before the readers are entered")
     disp = entry(ctx, "read_text")
     readers = {f.fq for f in reader_entries(ctx).values()}
-    # functions of the dispatcher's closure that run before a reader is entered
-    pre = [disp]
-    for cs in sites(ctx, disp):
-        if cs.kind == "tucan" and cs.target.fq not in readers and cs.target.name != "graph_from_molecule":
-            pre += [ctx.cg.funcs[q] for q in ctx.cg.closure([cs.target.fq]) if q not in readers]
-    n = 0
+    # functions that run before a reader is entered: reachable from the entry without going through a reader
+    # (or through the graph builder, which runs after one)
+    stop = set(readers) | {q for q in ctx.cg.funcs if q.endswith(".graph_from_molecule")}
+    pre, seen_q, work = [], set(), [disp.fq]
+    while work:
+        q = work.pop()
+        if q in seen_q or q in stop or q not in ctx.cg.funcs:
+            continue
+        seen_q.add(q)
+        pre.append(ctx.cg.funcs[q])
+        work.extend(ctx.cg.edges.get(q, ()))
+    # names that hold the list of lines: result of .splitlines() / readlines(), and parameters that receive such a name
+    lists_of: dict[str, set] = {f.fq: set() for f in pre}
     for fi in pre:
-        fn = fi.node
-        # names that hold the list of lines: result of .splitlines() / parameters receiving it
-        line_lists = set()
-        for name, defs in assigned_names(fn).items():
+        for name, defs in assigned_names(fi.node).items():
             for d in defs:
                 v = getattr(d, "value", None)
                 if isinstance(v, ast.Call) and isinstance(v.func, ast.Attribute) and v.func.attr in ("splitlines", "split", "readlines"):
-                    line_lists.add(name)
-        if fi is not disp:
-            line_lists |= set(params_of(fn)[:1])
+                    lists_of[fi.fq].add(name)
+    def is_list_expr(fi, a_):
+        return (isinstance(a_, ast.Name) and a_.id in lists_of[fi.fq]) or (isinstance(a_, ast.Attribute) and norm(a_) in lists_of[fi.fq]) or \
+               (isinstance(a_, ast.Call) and isinstance(a_.func, ast.Attribute) and a_.func.attr in ("splitlines", "readlines"))
+    changed = True
+    while changed:
+        changed = False
+        for fi in pre:
+            for cs in sites(ctx, fi):
+                # a value class built around the line list: its field is the list in every method
+                ci = cs.target if cs.kind == "ctor" else (fi.cls if cs.kind in ("param", "unknown") and isinstance(cs.node.func, ast.Name) and cs.node.func.id == "cls" else None)
+                if ci is not None and cs.node.args and is_list_expr(fi, cs.node.args[0]):
+                    flds = [st.target.id for st in ci.node.body if isinstance(st, ast.AnnAssign) and isinstance(st.target, ast.Name)]
+                    if flds:
+                        for g in pre:
+                            if g.cls is ci and f"self.{flds[0]}" not in lists_of[g.fq]:
+                                lists_of[g.fq].add(f"self.{flds[0]}")
+                                changed = True
+                if cs.kind == "tucan" and cs.target.fq in lists_of:
+                    tp = params_of(cs.target.node)
+                    off = 1 if cs.target.cls is not None and tp and tp[0] in ("self", "cls") else 0
+                    for i_, a_ in enumerate(cs.node.args):
+                        is_list = is_list_expr(fi, a_)
+                        if is_list and i_ + off < len(tp) and tp[i_ + off] not in lists_of[cs.target.fq]:
+                            lists_of[cs.target.fq].add(tp[i_ + off])
+                            changed = True
+    n = 0
+    for fi in pre:
+        fn = fi.node
+        line_lists = lists_of[fi.fq]
         for x in own_walk(fn):
-            if isinstance(x, ast.Subscript) and isinstance(x.value, ast.Name) and x.value.id in line_lists and isinstance(x.ctx, ast.Load):
+            if isinstance(x, ast.Subscript) and isinstance(x.value, (ast.Name, ast.Attribute)) and norm(x.value) in line_lists and isinstance(x.ctx, ast.Load):
                 n += 1
                 if isinstance(x.slice, ast.Slice):
                     lo = try_const(ctx, fi, x.slice.lower) if x.slice.lower is not None else 0
@@ -1502,7 +1691,7 @@ def r_dispatch(ctx) -> RuleResult:
                 res.inst(fi.fq, f"{what} read before dispatch", "ok" if ok else "fail")
                 if not ok:
                     res.fail(Finding("R-DISPATCH", fi.module.rel, fi.qualname, norm(x), f"{what} covers the title / program / comment lines: their text influences how the file is read", line=x.lineno))
-            if isinstance(x, (ast.For, ast.comprehension)) and isinstance(x.iter, ast.Name) and x.iter.id in line_lists:
+            if isinstance(x, (ast.For, ast.comprehension)) and isinstance(x.iter, (ast.Name, ast.Attribute)) and norm(x.iter) in line_lists:
                 n += 1
                 res.inst(fi.fq, f"iteration over all lines `{short(x.iter)}`", "fail")
                 res.fail(Finding("R-DISPATCH", fi.module.rel, fi.qualname, norm(x.iter), "all lines, including title / program / comment lines, are inspected before a reader is chosen", line=x.iter.lineno))
